@@ -133,6 +133,7 @@ def inband_resize_disabled(ctx, w, S, R, rule):
     CT = w.terms(cf)
     ctor_val = {nm: WD.strip_names(CT.operand(op, cpt)) for nm, op in zip(crv["field_names"], crv["ops"])}
     reach = E.reachable_fns([A["execute"]])
+    rw = shared.real_writers(w, S, cf)
     n = 0
     for fn in sorted(reach):
         for cs in E.call_sites(fn, S.resize_fn):
@@ -143,7 +144,7 @@ def inband_resize_disabled(ctx, w, S, R, rule):
             for c, v in gs:
                 if c[0] == "load" and len(c[1]) == 2 and c[1][0] == "arg1" and v is True:
                     flag = c[1][1]
-                    writers = [f2 for f2 in w.bodies if f2 != cf and any(("arg1", flag) in ps for ps in E.stmt_writes[f2].values()) and S._impl_of(f2) == S.term_ty]
+                    writers = sorted(rw.get(flag, ()))
                     whole = [f2 for f2 in w.bodies if f2 != cf and S._impl_of(f2) == S.term_ty and any(("arg1",) in ps for ps in E.stmt_writes[f2].values())]
                     if ctor_val.get(flag) == ("const", False) and not writers:
                         ok = True
